@@ -203,8 +203,11 @@ def run_case(desc, ctx):
         anc, ss, truth = g
     ns = len(ss)
     files = []
+    pool = ['zeta', 'alpha', 'Mu', 'beta9', 'x10', 'x2', 'omega', 'delta', 'B_7', 'kappa', 'a1', 'Z']
+    r3 = random.Random(desc['seed'] ^ 0xabc)
+    snames = r3.sample(pool, ns) if desc['seed'] % 2 else ['s%d' % i for i in range(ns)]
     for i, s in enumerate(ss):
-        files.append(G.write_fa(ctx.path('s%d.fa' % i), [s if rng.random() < 0.5 else M.rc(s)]))
+        files.append(G.write_fa(ctx.path('%s.fa' % snames[i]), [s if rng.random() < 0.5 else M.rc(s)]))
     p = G.ska_build(ctx, ctx.path('o'), files, k, True)
     if p.returncode != 0:
         raise Inconclusive('build failed: ' + p.stderr[-200:])
@@ -262,7 +265,7 @@ def run_case(desc, ctx):
             res.violate(sig + ':no-output', 'lo exited 0 without writing the SNP alignment', detail)
             return res
         well_formed(res, sig, seqs, desc['m'], detail)
-        if names != ['s%d' % i for i in range(ns)]:
+        if names != snames:
             res.violate(sig + ':names', 'names %s' % names, detail)
         if seqs and seqs[0]:
             res.nontrivial.append(fingerprint(['wf', k, ss]))
@@ -288,7 +291,7 @@ def run_case(desc, ctx):
             bad.append('reported columns %s are not planted ones %s' % (sorted(extra.elements()), exp))
         res.count('ref_sites_planted', len(exp))
         res.count('ref_sites_reported', len(got))
-    if names != ['s%d' % i for i in range(ns)]:
+    if names != snames:
         bad.append('names %s' % names)
     if bad:
         res.violate(sig + ':columns', 'k=%d ns=%d threads=%d jitter=%s: %s' % (k, ns, desc['threads'], desc.get('jitter'), '; '.join(bad)), detail)
